@@ -40,7 +40,7 @@ MANIFEST = {
 }
 
 BASE = {"rmoveto", "hmoveto", "vmoveto", "rlineto", "endchar", "add", "sub", "drop", "exch", "return"}
-FINE = [("Unit = 1", "Unit = 65536"), ("MaxV = 32000", "MaxV = 131072000"),
+FINE = [("Unit = 1", "Unit = 65536"), ("MaxV = 32000", "MaxV = 131072000"), ("MaxPos = 1000000", "MaxPos = 524288000"),
         ("CoarseVals", "FineVals"), ("CoarseSVals", "FineSVals"),
         ("CoarseDWs", "FineDWs"), ("CoarseNWs", "FineNWs")]
 
@@ -57,15 +57,12 @@ def _cfg(name, fine=False, subs=()):
     return text
 
 
-def _ops(case):
+def _ops(case, g=None):
+    """Operators used by glyph g of the font (all glyphs if g is None) and by the subroutines."""
     s = set()
-    for t in case["main"]:
-        if isinstance(t, str):
-            s.add(t)
-        elif isinstance(t, list):
-            s.add(t[0])
-    for b in case["subrs"]:
-        for t in b["toks"]:
+    mains = [gl["main"] for gl in case["glyphs"]] if g is None else [case["glyphs"][g]["main"]]
+    for toks in mains + [b["toks"] for b in case["subrs"]]:
+        for t in toks:
             if isinstance(t, str):
                 s.add(t)
             elif isinstance(t, list):
@@ -73,8 +70,8 @@ def _ops(case):
     return s
 
 
-def _ntok(case):
-    return len(case["main"]) + sum(len(b["toks"]) for b in case["subrs"])
+def _ntok(case, g):
+    return len(case["glyphs"][g]["main"]) + sum(len(b["toks"]) for b in case["subrs"])
 
 
 class Runner:
@@ -88,6 +85,8 @@ class Runner:
         self.ops_seen = {}
         self.failed_feats = set()
         self.reported = set()
+        self.fonts = 0
+        self.indet = 0
 
     def replay(self, cases, label, one_variant=False):
         """Run the cases through the harness; returns the list of (case, verdict) failures."""
@@ -109,15 +108,19 @@ class Runner:
                 n += 1
                 if not v["ok"]:
                     fails.append((byid[v["id"]], v))
-        if n < (1 if one_variant else 2) * len(cases):
+        if n < (1 if one_variant else 2) * len(cases):   # at least one verdict per case and variant
             raise vlib.Infra("harness produced %d verdicts for %d cases" % (n, len(cases)))
         ctx.cov["evaluations"] += n
         for c in cases:
             ops = _ops(c)
-            if ops - BASE or c["fault"]:
-                self.distinct.add(json.dumps([c["main"], c["subrs"], c["ls"], c["gs"]], sort_keys=True))
+            if ops - BASE or c["glyphs"][-1]["fault"]:
+                self.distinct.add(json.dumps([[g["main"] for g in c["glyphs"]], c["subrs"], c["ls"], c["gs"]],
+                                             sort_keys=True))
             for o in ops:
                 self.ops_seen[o] = self.ops_seen.get(o, 0) + 1
+            if len(c["glyphs"]) > 1:
+                self.fonts += 1
+            self.indet += sum(1 for g in c["glyphs"] if g["indet"])
         os.remove(cp)
         os.remove(vp)
         ctx.log("%s: %d cases, %d verdicts, %d failing" % (label, len(cases), n, len(fails)))
@@ -138,21 +141,31 @@ class Runner:
         ctx = self.ctx
         groups = {}
         for c, v in fails:
-            if c["fault"]:
-                key = ("fault", c["fault"], v["kind"])
-            elif c["feat"] != "mix":
-                key = ("feat", c["feat"], v["kind"])
+            gl = c["glyphs"][v["g"]]
+            if gl["fault"]:
+                key = ("fault", gl["fault"], v["kind"])
+            elif v["kind"] == "context":
+                key = ("context", "", v["kind"])       # a glyph decodes differently inside a font
+            elif gl["feat"] != "mix":
+                key = ("feat", gl["feat"], v["kind"])
             else:
-                key = ("mix", ",".join(sorted(_ops(c) - BASE))[:200], v["kind"])
+                key = ("mix", ",".join(sorted(_ops(c, v["g"]) - BASE))[:200], v["kind"])
             groups.setdefault(key, []).append((c, v))
         # mix failures: one report per kind, smallest program
         merged = {}
         for key, lst in groups.items():
             k2 = key if key[0] != "mix" else ("mix", "", key[2])
             merged.setdefault(k2, []).extend(lst)
+        # when many operator families fail in the same way, the culprit is the vocabulary they share
+        # (moveto, rlineto, endchar, the arithmetic base) or the container, not each of them
+        for kind in set(k[2] for k in merged if k[0] == "feat"):
+            fam = [k for k in merged if k[0] == "feat" and k[2] == kind]
+            if len(fam) > 6:
+                for k in fam:
+                    merged.setdefault(("base", "", kind), []).extend(merged.pop(k))
         for key, lst in sorted(merged.items()):
-            lst.sort(key=lambda cv: (_ntok(cv[0]), cv[0]["id"]))
-            if key[0] == "feat" and not (_ops(lst[0][0]) - BASE):
+            lst.sort(key=lambda cv: (len(cv[0]["glyphs"]), _ntok(cv[0], cv[1]["g"]), cv[0]["id"]))
+            if key[0] == "feat" and not (_ops(lst[0][0], lst[0][1]["g"]) - BASE):
                 # the smallest failing program does not even use the operator of its family: the
                 # failure is in the container (INDEX, DICT, FD selection, width defaults)
                 key = ("container", "", key[2])
@@ -167,27 +180,34 @@ class Runner:
                 self.reported.add(key)
                 continue
             self.reported.add(key)
-            lst.sort(key=lambda cv: (_ntok(cv[0]), cv[0]["id"]))
             c, v = lst[0]
-            again = self.confirm(c)
+            again = [a for a in self.confirm(c) if a["kind"] == v["kind"]] or self.confirm(c)
             if not again:
                 ctx.notes.append("a failing verdict did not reproduce in isolation (%s)" % (key,))
                 raise vlib.Infra("failure of case %d (%s) did not reproduce in isolation" % (c["id"], key))
             v = again[0]
-            special = sorted(_ops(c) - BASE)
+            g = v["g"]
+            main = c["glyphs"][g]["main"]
+            special = sorted(_ops(c, g) - BASE)
             if v["kind"] == "accepted":
                 what = ("cff.Read accepts a malformed Type 2 program (fault class %s: %s); TN5177 makes it an "
-                        "error. Program: %s" % (c["fault"], v["detail"], json.dumps(c["main"])[:400]))
+                        "error. Program: %s" % (c["glyphs"][g]["fault"], v["detail"], json.dumps(main)[:400]))
             elif v["kind"] == "rejected":
                 what = ("cff.Read rejects a well-formed Type 2 program (%s). Operators %s; program: %s"
-                        % (v["detail"], special, json.dumps(c["main"])[:400]))
+                        % (v["detail"], special, json.dumps(main)[:400]))
             elif v["kind"] == "panic":
-                what = "cff.Read panics (%s) on program %s" % (v["detail"], json.dumps(c["main"])[:400])
+                what = "cff.Read panics (%s) on program %s" % (v["detail"], json.dumps(main)[:400])
+            elif v["kind"] == "context":
+                what = ("the interpretation of a charstring depends on the other glyphs of the font (TN5177: every "
+                        "charstring runs on a fresh machine; Type2.tla NextGlyph): glyph %d, observation '%s', %s: %s. "
+                        "%d failing observations. Charstrings of the font: %s"
+                        % (g, v["obs"], v.get("field", ""), v["detail"], len(lst),
+                           json.dumps([gl["main"] for gl in c["glyphs"]])[:700]))
             else:
                 what = ("cff.Read decodes a well-formed Type 2 program differently from TN5177 (Type2.tla): %s: %s. "
                         "%d of %d failing cases in group %s; smallest program (%d tokens, operators %s): %s%s"
-                        % (v["field"], v["detail"], len(lst), len(fails), key[:2], _ntok(c), special,
-                           json.dumps(c["main"])[:500],
+                        % (v["field"], v["detail"], len(lst), len(fails), key[:2], _ntok(c, g), special,
+                           json.dumps(main)[:500],
                            (" subrs " + json.dumps(c["subrs"])[:300]) if c["subrs"] else ""))
             sig = {"stratum": stratum, "group": key[0], "op": key[1] if key[0] in ("feat", "fault") else ",".join(special),
                    "kind": v["kind"], "unit": c["unit"]}
@@ -206,7 +226,7 @@ def _gen(ctx, r, cfgname, n, depth, label, fine=False, subs=(), excluded=()):
     if res.violated:
         raise vlib.Infra("%s: the generator violates %s -- the spec is wrong, not the code:\n%s"
                          % (label, res.violated, res.error_text[:1500]))
-    if len(res.cases) < n // (12 if fine else 4):
+    if len(res.cases) < n // (16 if fine else 5):
         raise vlib.Infra("%s produced only %d programs" % (label, len(res.cases)))
     return res.cases
 
@@ -217,6 +237,10 @@ def run(ctx):
         "div, mul, sqrt are generated only with exact results; random only where its value cannot matter",
         "endchar with 4/5 operands (seac) and operand-count faults other than an empty stack are outside the oracle",
         "subroutine bias rule taken from TN5176 section 16; nesting limit 10 from TN5177 appendix B",
+        "a charstring that reads a transient cell it has not written has no specified value; the only demand is "
+        "that its decode is the same alone and inside any font (independence), compared between two real decodes",
+        "pen positions and stem edges may leave the operand range (|pos| <= 1000000 in integer units; 16.16 runs "
+        "keep |pos| <= 8000 because TLC integers are 32-bit)",
     ]
     r = Runner(ctx)
 
@@ -240,13 +264,30 @@ def run(ctx):
     fails = r.replay(res.cases, "exhaustive programs", one_variant=ctx.quick())
     r.report(fails, "exhaustive")
 
+    # 1b. fonts of two glyphs (transient array, hints, widths left behind by the first glyph)
+    res = ctx.tlc("Type2MC", cfg="X.cfg", files={"X.cfg": _cfg("Type2Font.cfg", subs=sub[:1])},
+                  timeout=900, label="Type2 exhaustive (fonts of two glyphs, fresh machine per charstring)")
+    if not res.ok:
+        raise vlib.Infra("Type2.tla (fonts) violates %s on the model -- the spec is wrong, not the code:\n%s"
+                         % (res.violated, res.error_text[:1500]))
+    ctx.sample({"font_case": res.cases[len(res.cases) // 2]})
+    fails = r.replay(res.cases, "exhaustive two-glyph fonts", one_variant=ctx.quick())
+    r.report(fails, "exhaustive")
+
     # 2. one operator per behaviour
     for fine in ([False] if ctx.quick() else [False, True]):
-        cases = _gen(ctx, r, "Type2Feat.cfg", ctx.pick(2500, 12000), 2000,
+        cases = _gen(ctx, r, "Type2Feat.cfg", ctx.pick(2000, 12000), 2000,
                      "Type2 feature programs (%s)" % ("16.16" if fine else "integers"), fine=fine)
         ctx.sample({"feature_case": cases[0]})
         fails = r.replay(cases, "feature programs")
         r.report(fails, "feature")
+
+    # 2b. fonts of three glyphs over the operators with interpreter-level state (transient array, hint
+    # counts, width, random, calls): every glyph alone, in the font, in the reversed font, across two FDs
+    cases = _gen(ctx, r, "Type2Feat.cfg", ctx.pick(300, 3000), 3000, "Type2 state fonts (three glyphs)",
+                 subs=[("NGs <- OneGlyph", "NGs <- ThreeGlyphs"), ("Feats <- AllFeats", "Feats <- StateFeats")])
+    fails = r.replay(cases, "state fonts")
+    r.report(fails, "fonts")
 
     # 3. everything together, minus what already failed
     excl = sorted(r.failed_feats)
@@ -254,7 +295,7 @@ def run(ctx):
         ctx.notes.append("mix programs generated without the operators that failed on their own: %s" % excl)
     for fine in ([False] if ctx.quick() else [False, True]):
         # 16.16 numbers are confined to |v| <= 2000 (32-bit TLC integers): shorter operand lists stay in range
-        cases = _gen(ctx, r, "Type2Gen.cfg", ctx.pick(250, 1500), 4000,
+        cases = _gen(ctx, r, "Type2Gen.cfg", ctx.pick(200, 1500), 4000,
                      "Type2 mix programs (%s)" % ("16.16" if fine else "integers"), fine=fine, excluded=excl,
                      subs=[("MaxArgs = 48", "MaxArgs = 14"), ("MaxOps = 14", "MaxOps = 8")] if fine else ())
         ctx.sample({"mix_case": cases[0]})
@@ -263,7 +304,7 @@ def run(ctx):
 
     # 4. single-fault programs
     for fine in ([False] if ctx.quick() else [False, True]):
-        cases = _gen(ctx, r, "Type2Fault.cfg", ctx.pick(500, 3000), 2000,
+        cases = _gen(ctx, r, "Type2Fault.cfg", ctx.pick(400, 3000), 2000,
                      "Type2 fault programs (%s)" % ("16.16" if fine else "integers"), fine=fine)
         ctx.sample({"fault_case": cases[0]})
         fails = r.replay(cases, "fault programs")
@@ -278,6 +319,10 @@ def run(ctx):
                        "operator outside the base vocabulary (moveto, rlineto, endchar, add/sub/drop/exch) or carry "
                        "a fault; evaluations = (program, CFF variant) pairs decoded by cff.Read and compared")
     ctx.cov["operator_occurrences"] = dict(sorted(r.ops_seen.items()))
+    ctx.cov["fonts_with_several_glyphs"] = r.fonts
+    ctx.cov["glyphs_reading_unwritten_transient_cells"] = r.indet
+    if r.fonts == 0 or r.indet == 0:
+        raise vlib.Infra("no multi-glyph font / no indeterminate glyph generated")
     missing = [o for o in ("flex", "flex1", "hflex", "hflex1", "roll", "index", "ifelse", "callsubr", "callgsubr",
                            "cntrmask", "hintmask", "hvcurveto", "vhcurveto", "put", "get", "div", "sqrt", "random")
                if r.ops_seen.get(o, 0) == 0]
